@@ -186,6 +186,8 @@ func (v Val) Go() any {
 			out[kv.K] = kv.V.S == "true"
 		}
 		return out
+	case "jsonnum": // json.Number, as encoding/json decodes numbers with UseNumber
+		return json.Number(v.S)
 	case "mapsi64": // not one of the map types with a provider of their own: the generic path for string-keyed maps
 		out := make(map[string]int64, len(v.M))
 		for _, kv := range v.M {
